@@ -77,6 +77,8 @@ pub struct GenCfg {
     pub failures: bool,
     pub max_depth: usize,
     pub max_stmts: usize,
+    /// while loops that run for tens to hundreds of iterations (the others run 0..3 times)
+    pub long_loops: bool,
 }
 
 struct G<'a, 'b> {
@@ -128,7 +130,8 @@ impl<'a, 'b> G<'a, 'b> {
             }
             2 => {
                 let key = self.key();
-                Cond::Tick { neg: self.t.flip(), key, n: self.t.below(4) as u32 }
+                let n = if self.cfg.long_loops && for_while && self.t.chance(1, 2) { 20 + self.t.below(230) as u32 } else { self.t.below(4) as u32 };
+                Cond::Tick { neg: self.t.flip(), key, n }
             }
             _ => {
                 if for_while {
@@ -708,6 +711,8 @@ pub struct Model<'p> {
     pub max_depth_seen: usize,
     pub classes: HashSet<&'static str>,
     pub block_runs: HashMap<usize, u32>,
+    /// loops (while / for-in) currently being executed around the current statement
+    pub loop_nest: usize,
     pub exit_on_error: bool,
     /// C10: failures observed: id -> (message is known?, message)
     pub failures: Vec<u32>,
@@ -755,6 +760,7 @@ impl<'p> Model<'p> {
             max_depth_seen: 0,
             classes: HashSet::new(),
             block_runs: HashMap::new(),
+            loop_nest: 0,
             exit_on_error: false,
             failures: vec![],
             last_error: None,
@@ -998,10 +1004,19 @@ impl<'p> Model<'p> {
                             break;
                         }
                         iters += 1;
-                        if let Flow::Return(v) = self.block(b)? {
+                        self.loop_nest += 1;
+                        let r = self.block(b);
+                        self.loop_nest -= 1;
+                        if let Flow::Return(v) = r? {
                             self.early_returns += 1;
                             self.classes.insert("return-from-inside-while");
                             return Ok(Flow::Return(v));
+                        }
+                    }
+                    if iters >= 100 {
+                        self.classes.insert("while-ran-100-times");
+                        if self.loop_nest > 0 {
+                            self.classes.insert("while-ran-100-times-inside-a-loop-iteration");
                         }
                     }
                     if iters == 0 {
@@ -1026,7 +1041,10 @@ impl<'p> Model<'p> {
                             return Err(Stop::Unconstrained("for-in source variable changed during iteration"));
                         }
                         self.assign(v, Some(it))?;
-                        if let Flow::Return(val) = self.block(b)? {
+                        self.loop_nest += 1;
+                        let r = self.block(b);
+                        self.loop_nest -= 1;
+                        if let Flow::Return(val) = r? {
                             self.early_returns += 1;
                             self.classes.insert("return-from-inside-for");
                             return Ok(Flow::Return(val));
